@@ -179,8 +179,31 @@ def observe (st : St) : String :=
     s!"n{n.id}={digest (n.dag.map (·.ref))},x={r16 (xorOf n.dag)},lc={lcOf n.dag},convs={n.convs.length},priv=[{String.intercalate "," ps}]")
   "obs " ++ String.intercalate " " parts
 
-def recvLine (d : DSt) (j : Json) (src dst : Nat) (m : Msg) : DSt × List String :=
+/-- a transient "database busy" fault observed by the harness: the Add of transaction `idx` returned an error without any
+    effect. For the model this is an Add with a failing verdict (no state change, the rest of the list is not looked at). -/
+def faultOf (st : St) (j : Json) : Option Ref :=
+  match j.getObjVal? "fault" with
+  | .ok v => match v.getNat? with
+    | .ok i => match st.txs[i]? with
+      | some (some t) => some t.ref
+      | _ => none
+    | _ => none
+  | _ => none
+
+def failAdd (r : Ref) (nt : NetTx) : NetTx :=
+  match nt.tx with
+  | some t => if t.ref == r then { nt with tx := some { t with sigOK := false } } else nt
+  | none => nt
+
+def withFault (f : Option Ref) (m : Msg) : Msg :=
+  match f, m with
+  | some r, .txList cid num total txs => .txList cid num total (txs.map (failAdd r))
+  | _, m => m
+
+def recvLine (d : DSt) (j : Json) (src dst : Nat) (m0 : Msg) : DSt × List String :=
   let st := d.st
+  let fault := faultOf st j
+  let m := withFault fault m0
   let (env, hasOrder) := mkEnv st j
   let before := st.w.sent.length
   match st.w.nodes[dst]? with
@@ -191,6 +214,7 @@ def recvLine (d : DSt) (j : Json) (src dst : Nat) (m : Msg) : DSt × List String
     | some _ =>
       let (w', r) := st.w.recv st.cfg src dst m env
       let ret := match r with | some r => r.ret | none => "?"
+      let ret := if fault.isSome && ret == "err:add-sig" then "err:db-busy" else ret
       let viol := match m with
         | .listQuery _ refs =>
           if hasOrder && !refs.isEmpty then
@@ -265,6 +289,7 @@ def step (d : DSt) (j : Json) : DSt × List String :=
         let n' := (w'.nodes[i]?).getD n
         let c := ((peerOf n' peer).map (·.connected)).getD false
         ({ d with st := { st with w := w' } }, [s!"conn connected={c} queue={n'.queues.any (fun q => q.peer == peer)}"])
+  | "fault" => (d, ["fault armed"])
   | "chunk" =>
     let cfg := { baseCfg with maxMsg := jNat j "maxmsg" }
     let txs : List NetTx := (jArr j "runs").flatMap (fun r => match r with
